@@ -243,7 +243,24 @@ def ensure_harness_gomod():
         open(mf, "w").write(mark)
 
 
+def trim_go_cache_if_disk_low():
+    """every build of a modified tree adds to the Go build cache (it grew to 130 GB during the seeded-change
+    evaluations); when the disk runs low, drop cache entries not used for 90 minutes (they are rebuilt on demand)."""
+    try:
+        free = shutil.disk_usage(os.path.expanduser("~")).free
+    except OSError:
+        return
+    if free > 30 * (1 << 30):
+        return
+    with Lock("gocache"):
+        rc, gocache = run(["go", "env", "GOCACHE"], env=GOENV, timeout=60)
+        gocache = gocache.strip().split("\n")[-1] if rc == 0 else ""
+        if gocache and os.path.isdir(gocache) and gocache not in ("/", os.path.expanduser("~")):
+            run(["find", gocache, "-type", "f", "-mmin", "+90", "-delete"], timeout=1200)
+
+
 def go_build(cmdname, out, overlay, timeout=1500):
+    trim_go_cache_if_disk_low()
     ensure_harness_gomod()
     hdir = os.path.join(VERIF, "harness")
     cmd = ["go", "build", "-mod=mod", "-tags", TAGS] + overlay_arg(overlay) + ["-o", out, "./cmd/" + cmdname]
